@@ -9,7 +9,7 @@ from .. import graph_hist as H
 from .. import histprops as HP
 
 LEVEL = 'proof'
-NEEDS = ['Base', 'Names', 'Graph', 'GraphObs', 'GraphTS', 'GraphInv', 'GraphAtomicLemmas', 'GraphAtomicProofs']
+NEEDS = ['SFMutators', 'Extracted', 'SourceFacts', 'Base', 'Names', 'Graph', 'GraphObs', 'GraphTS', 'GraphInv', 'GraphAtomicLemmas', 'GraphAtomicProofs']
 SINGLE = {'add_node', 'add_node_obj', 'add_node_vl', 'delete_node', 'replace_node', 'add_edge', 'add_time_edge',
           'delete_edge', 'change_edge_type', 'replace_edge'}
 CELLS = Counter()
